@@ -123,7 +123,7 @@ def run(ctx):
                 out.append(s[i])
                 i += 1
         return out
-    combos = list(itertools.product(P, repeat=2)) + (list(itertools.product(P, repeat=3)) if ctx.tier == "thorough" or ctx.escalated else [tuple(rng.choice(P) for _ in range(3)) for _ in range(3000)])
+    combos = list(itertools.product(P, repeat=2)) + (list(itertools.product(P, repeat=3)) if ctx.tier == "thorough" else [tuple(rng.choice(P) for _ in range(3)) for _ in range(3000)])
     for c in combos:
         s = "".join(c)
         if "//" in s or "/*" in s:
